@@ -1,0 +1,53 @@
+//go:build verif
+
+package blockchain
+
+// Add-only wrappers for the out-of-tree verification harness (/verif, family `peer`, property C18:
+// what BlockchainReactor.Receive makes of a peer's message).  The routines behind the reactor
+// (scheduler / processor / demux) are the subject of family `blocksync`; here the reactor is put
+// into "fast sync in progress" WITHOUT starting them, and the driver reads the events Receive emits.
+// Nothing here is compiled without the build tag `verif`.
+
+import (
+	"fmt"
+
+	"github.com/kardiachain/go-kardia/lib/behaviour"
+	"github.com/kardiachain/go-kardia/lib/p2p"
+)
+
+// VerifPeerManualSync makes r.events non-nil (so that Receive forwards peer messages as events) without
+// starting the scheduler / processor / demux goroutines, and installs the reporter Start() would.
+func (r *BlockchainReactor) VerifPeerManualSync() {
+	r.mtx.Lock()
+	r.events = make(chan Event, chBufferSize)
+	r.mtx.Unlock()
+	r.reporter = behaviour.NewSwitchReporter(r.BaseReactor.Switch)
+}
+
+// VerifPeerReporter installs the switch reporter only (what Start() does when fast sync is off).
+func (r *BlockchainReactor) VerifPeerReporter() {
+	r.reporter = behaviour.NewSwitchReporter(r.BaseReactor.Switch)
+}
+
+// VerifPeerNextEvent takes the next event Receive / AddPeer / RemovePeer put on r.events (what demux
+// reads), described as kind / peer / height.
+func (r *BlockchainReactor) VerifPeerNextEvent() (kind string, peer p2p.ID, height uint64, ok bool) {
+	select {
+	case e := <-r.events:
+		switch ev := e.(type) {
+		case bcStatusResponse:
+			return "status", ev.peerID, ev.height, true
+		case bcBlockResponse:
+			return "block", ev.peerID, ev.block.Height(), true
+		case bcNoBlockResponse:
+			return "noblock", ev.peerID, ev.height, true
+		case bcAddNewPeer:
+			return "addpeer", ev.peerID, 0, true
+		case bcRemovePeer:
+			return "removepeer", ev.peerID, 0, true
+		}
+		return fmt.Sprintf("%T", e), "", 0, true
+	default:
+		return "", "", 0, false
+	}
+}
